@@ -393,7 +393,6 @@ func (x *Ctx) isFreshNonNilError(v ssa.Value) bool {
 	return false
 }
 
-
 // onlyCalls: fn has no effect of its own — no stores — and calls nothing but `allowed` (and other looked-through helpers).
 func (x *Ctx) onlyCalls(fn, allowed *ssa.Function, helpers map[*ssa.Function]bool) bool {
 	for _, b := range fn.Blocks {
